@@ -208,6 +208,46 @@ def run(tier, work, replay=None):
         return t, sdl, json.loads(line[-1][2:])
 
     outs = pmap(one, tasks)
+    # ---- the schemas of the repository's own example projects (real-world SDL as its authors wrote it), both target kinds
+    from .. import corpus
+    import tomllib
+
+    def one_corpus(t):
+        proj, fmt = t
+        sec = tomllib.loads((proj["dir"] / proj["config"]).read_text()).get("tool", {}).get("ariadne-codegen", {})
+        sp = proj["dir"] / sec.get("schema_path", "schema.graphql")
+        if not sp.is_file():
+            return t, None, None
+        sdl = sp.read_text()
+        target = {"py": "out_schema.py", "graphql": "out.graphql"}[fmt]
+        job = write_job(work.dir / ("scc_" + proj["name"].replace(":", "_") + "_" + fmt), schema=sdl, queries=None, package=None,
+                        options={"target_package_name": None, "include_comments": None, "target_file_path": target,
+                                 "schema_variable_name": "schema", "type_map_variable_name": "type_map"})
+        r = generate(job, "graphqlschema")
+        if r["exc_class"]:
+            return t, sdl, {"gen": r["exc_class"], "msg": r["exc_msg"]}
+        p = run_py(["-c", COMPARE, str(job), fmt, target, "schema", "type_map"])
+        line = [ln for ln in p.stdout.splitlines() if ln.startswith("@@")]
+        import shutil
+        shutil.rmtree(job, ignore_errors=True)
+        return t, sdl, (json.loads(line[-1][2:]) if line else {"gen": "compare_failed", "msg": p.stderr[-400:]})
+    couts = pmap(one_corpus, [(pj, fmt) for pj in corpus.projects() for fmt in ("py", "graphql")])
+    n_corpus = 0
+    for (proj, fmt), sdl, o in couts:
+        if o is None:
+            continue
+        n_corpus += 1
+        feats = {"corpus": proj["name"], "format": fmt, "features": ["corpus"], "n_features": 0}
+        if "gen" in o:
+            if o["gen"] == "compare_failed":
+                raise Machinery("schema comparison helper failed: " + o["msg"])
+            v.violation(feats, f"gen_crash:{o['gen']}", {"message": o["msg"]})
+            continue
+        if not o["importable"]:
+            v.violation(feats, "generated_file_does_not_load", {"error": o.get("error")})
+        for kind, attr in o.get("lost", []):
+            v.violation(dict(feats, lost=f"{kind}.{attr}"), f"schema_differs:{kind}.{attr}", {"corpus": proj["name"]})
+    v.cov["corpus_schemas"] = n_corpus
     traces, owners = [], []
     for (i, vec, fmt), sdl, o in outs:
         feats = {"features": vec, "format": fmt, "n_features": len(vec)}
